@@ -527,11 +527,11 @@ func ruleEnv(c *Ctx) {
 				}
 				return fmt.Sprintf("%s=%v", name, !val) == cond
 			}
-			seen := g.Reach([]*Node{g.Entry}, func(x *Node) bool { return x == enNode }, cutOff)
+			seen := p.FeasibleReach(f, []*Node{g.Entry}, func(x *Node) bool { return x == enNode }, cutOff)
 			construct := "env " + en.key + " whenever its feature is on"
 			var hit *Node
 			for _, ln := range launchN {
-				if _, r := seen[ln]; r && ln != enNode {
+				if seen[ln] && ln != enNode {
 					hit = ln
 				}
 			}
@@ -553,7 +553,7 @@ func ruleEnv(c *Ctx) {
 				if _, r := after[hit]; !r {
 					continue
 				}
-				c.R.Violate("R-TABLE/env", p.Pos(en.call), f.Name, construct, "with {"+cond+"} there is a way from the entry of Start to the launch at "+p.Pos(hit.Ast)+" that does not pass this append: another condition decides as well, so the plugin can be launched with the feature requested and the variable missing (for PLUGIN_CLIENT_CERT: it serves plaintext while the host dials TLS, or the reverse)", p.PathTo(seen, hit))
+				c.R.Violate("R-TABLE/env", p.Pos(en.call), f.Name, construct, "with {"+cond+"} there is a way from the entry of Start to the launch at "+p.Pos(hit.Ast)+" that does not pass this append: another condition decides as well, so the plugin can be launched with the feature requested and the variable missing (for PLUGIN_CLIENT_CERT: it serves plaintext while the host dials TLS, or the reverse)", nil)
 			} else {
 				c.R.Hold("R-TABLE/env", p.Pos(en.call), f.Name, construct, "with the feature condition assumed true no launch is reachable without the append", true)
 			}
